@@ -657,5 +657,211 @@ theorem multiply_pipeline (m : ℕ) (hm : 1 ≤ m) (a b : Array Int) (ha : a.siz
       (fun p hp => by rw [x2 p hp, hG p hp]) q]
   exact dft_inversion (m-1) _ q hq
 
+
+theorem ceilPow2_two_spec (len : ℕ) : ∃ m, 1 ≤ m ∧ ceilPow2 2 len = 2^m ∧ len ≤ 2^m := by
+  obtain ⟨m, hm1, hm2⟩ := ceilPow2_spec _ 1 len rfl
+  rw [Nat.pow_one] at hm2
+  exact ⟨m, hm1, hm2, by rw [← hm2]; exact ceilPow2_ge _ 2 len rfl (by omega)⟩
+
+/-- rounding the exact values `c[2q] + i·c[2q+1]` gives back the integers -/
+theorem roundPairs_exact (buf : Array ℂ) (c : ℕ → ℤ)
+    (h : ∀ q, q < buf.size → rdA arithC buf q = ((c (2 * q) : ℤ) : ℂ) + I * ((c (2 * q + 1) : ℤ) : ℂ)) :
+    roundPairs arithC buf = (List.range (2 * buf.size)).map c := by
+  apply List.ext_getElem?
+  intro u
+  by_cases hu : u < 2 * buf.size
+  · rw [roundPairs_getElem? arithC buf u hu, List.getElem?_map, List.getElem?_range hu, h (u / 2) (by omega)]
+    simp only [Option.map_some, Option.some.injEq]
+    by_cases hev : u % 2 = 0
+    · rw [if_pos hev, show 2 * (u / 2) = u by omega]
+      simp [arithC]
+    · rw [if_neg hev, show 2 * (u / 2) + 1 = u by omega]
+      simp [arithC]
+  · rw [List.getElem?_eq_none (by rw [length_roundPairs]; omega),
+      List.getElem?_eq_none (by simp; omega)]
+
+/-- **`multiply_into` in exact arithmetic adds the integer convolution** (table-free form). -/
+theorem multiplyIntoRef_exact (a b : Array Int) (res : List Int) :
+    multiplyIntoRef arithC a b res = addPrefix res (convSpec a b) := by
+  unfold multiplyIntoRef convSpec
+  by_cases he : a.size = 0 ∨ b.size = 0
+  · rw [if_pos he, if_pos he, addPrefix_nil]
+  · rw [if_neg he, if_neg he]
+    obtain ⟨m, hm1, hm2, hm3⟩ := ceilPow2_two_spec (a.size + b.size - 1)
+    simp only []
+    rw [hm2, Nat.log2_two_pow, two_pow_shiftRight_one m hm1]
+    obtain ⟨s1, s2⟩ := multiply_pipeline m hm1 a b (by omega) (by omega) hm3
+    rw [roundPairs_exact _ (convAt a b) (fun q hq => s2 q (by rw [← s1]; exact hq)), s1]
+    congr 1
+    have hn2 : 2 * 2^(m-1) = 2^m := by
+      obtain ⟨q, rfl⟩ : ∃ q, m = q + 1 := ⟨m - 1, by omega⟩
+      rw [Nat.pow_succ]; simp; omega
+    rw [hn2, ← List.map_take, List.take_range, Nat.min_eq_left hm3]
+
+
+theorem accC_spec {K : Type} (A : Arith K) (res buf : Array K) :
+    (accC A res buf).size = res.size ∧
+    ∀ p, p < res.size → rdA A (accC A res buf) p =
+      if p < buf.size then A.add (rdA A res p) (rdA A buf p) else rdA A res p := by
+  unfold accC
+  obtain ⟨h1, h2⟩ := forRange_modify_spec 0 (min res.size buf.size) (fun i x => A.add x (buf.getD i A.zero)) res
+  refine ⟨h1, fun p hp => ?_⟩
+  apply rdA_of_getElem?
+  rw [h2 p, getElem?_eq_rdA A res p hp]
+  by_cases h : p < buf.size
+  · rw [if_pos ⟨Nat.zero_le _, by omega⟩, if_pos h]; rfl
+  · rw [if_neg (by omega), if_neg h]
+
+/-- `fft` in exact arithmetic: the DFT of the coefficient vector -/
+theorem fftIntoRef_zero_exact (v : Array Int) (m : ℕ) :
+    (fftIntoRef arithC v m (Array.replicate (2^m) arithC.zero)).size = 2^m ∧
+    ∀ p, p < 2^m → rdA arithC (fftIntoRef arithC v m (Array.replicate (2^m) arithC.zero)) p
+      = dft (zeta m) (2^m) (cz v) p := by
+  unfold fftIntoRef
+  obtain ⟨r1, r2⟩ := fillRe_spec arithC v (Array.replicate (2^m) arithC.zero)
+  rw [Array.size_replicate] at r1 r2
+  obtain ⟨f1, f2⟩ := fftRef_dft m false _ r1
+  obtain ⟨a1, a2⟩ := accC_spec arithC (Array.replicate (2^m) arithC.zero) (fftRef arithC m false
+    (fillRe arithC v (Array.replicate (2^m) arithC.zero)))
+  rw [Array.size_replicate] at a1 a2
+  refine ⟨a1, fun p hp => ?_⟩
+  rw [a2 p hp, if_pos (by rw [f1]; exact hp), rdA_replicate, f2 p hp]
+  simp only [Bool.false_eq_true, if_false]
+  have : arithC.add arithC.zero (dft (zeta m) (2^m) (rdA arithC (fillRe arithC v (Array.replicate (2^m) arithC.zero))) p)
+      = dft (zeta m) (2^m) (rdA arithC (fillRe arithC v (Array.replicate (2^m) arithC.zero))) p := by
+    simp [arithC]
+  rw [this]
+  apply dft_congr
+  intro s hs
+  rw [r2 s hs, rdA_replicate]
+  unfold cz
+  by_cases h : s < v.size
+  · rw [if_pos h]; apply Complex.ext <;> simp [arithC]
+  · rw [if_neg h, getD_of_le v s (by omega)]; simp [arithC]
+
+theorem pointwise_spec (fa fb : Array ℂ) (n : ℕ) (ha : fa.size = n) (hb : fb.size = n) :
+    (pointwise arithC fa fb).size = n ∧ ∀ p, p < n → rdA arithC (pointwise arithC fa fb) p = rdA arithC fa p * rdA arithC fb p := by
+  unfold pointwise
+  refine ⟨by simp [ha, hb], fun p hp => ?_⟩
+  apply rdA_of_getElem?
+  rw [Array.getElem?_ofFn, dif_pos (by rw [ha, hb]; simpa using hp)]
+  rfl
+
+theorem convAt_of_ge (a b : Array Int) (u : ℕ) (h : a.size + b.size - 1 ≤ u) : convAt a b u = 0 := by
+  unfold convAt
+  rw [sumTo_eq_sum]
+  apply sum_eq_zero
+  intro s hs
+  have := mem_range.1 hs
+  rw [if_neg (by omega)]
+
+/-- `fft_inv` applied to the transform of an integer sequence `c` of length `2^m`: the sequence itself. -/
+theorem fftInvIntoRef_exact (m : ℕ) (c : ℕ → ℤ) (v : Array ℂ) (hv : v.size = 2^m)
+    (hval : ∀ p, p < 2^m → rdA arithC v p = dft (zeta m) (2^m) (fun u => ((c u : ℤ) : ℂ)) p) :
+    fftInvIntoRef arithC v (List.replicate v.size 0) = (List.range (2^m)).map c := by
+  unfold fftInvIntoRef
+  have z : ∀ (l : List Int), addPrefix (List.replicate l.length 0) l = l := by
+    intro l
+    induction l with
+    | nil => rfl
+    | cons x l ih => rw [List.length_cons, List.replicate_succ, addPrefix, ih]; simp
+  by_cases h1 : v.size = 1
+  · rw [if_pos h1]
+    have hm : m = 0 := by
+      cases m with
+      | zero => rfl
+      | succ m => rw [hv, Nat.pow_succ] at h1; have := Nat.two_pow_pos m; omega
+    subst hm
+    rw [h1]
+    have : rdA arithC v 0 = ((c 0 : ℤ) : ℂ) := by
+      rw [hval 0 (by norm_num)]; simp [dft]
+    unfold rdA at this
+    simp only [List.replicate, this]
+    simp [arithC]
+  · rw [if_neg h1]
+    have hm : 1 ≤ m := by
+      cases m with
+      | zero => simp at hv; exact absurd hv h1
+      | succ m => omega
+    simp only []
+    rw [hv, Nat.log2_two_pow, two_pow_shiftRight_one m hm]
+    have hn2 : 2 * 2^(m-1) = 2^m := by
+      obtain ⟨q, rfl⟩ : ∃ q, m = q + 1 := ⟨m - 1, by omega⟩
+      rw [Nat.pow_succ]; simp; omega
+    obtain ⟨g1, g2⟩ := foldHalf_spec arithC arithC.half (wArr arithC (max m 2)) (2^(max m 2)) m hm v hv
+    have hG : ∀ p, p < 2^(m-1) → rdA arithC (foldHalfRef arithC arithC.half m v) p
+        = dft (zeta (m-1)) (2^(m-1)) (fun t => ((c (2 * t) : ℤ) : ℂ) + I * ((c (2 * t + 1) : ℤ) : ℂ)) p := by
+      intro p hp
+      unfold foldHalfRef
+      have fe := fold_exact m hm (fun u => ((c u : ℤ) : ℂ)) p hp
+      rw [g2 p hp, hval p (by omega), hval (p + 2^(m-1)) (by omega), ← fe]
+      simp only [arithC]
+      ring
+    obtain ⟨x1, x2⟩ := extract_spec arithC (foldHalfRef arithC arithC.half m v) (2^(m-1))
+      (by unfold foldHalfRef; rw [g1]; omega)
+    obtain ⟨i1, i2⟩ := fftRef_dft (m-1) true _ x1
+    have hq : ∀ q, q < (fftRef arithC (m-1) true ((foldHalfRef arithC arithC.half m v).extract 0 (2^(m-1)))).size →
+        rdA arithC (fftRef arithC (m-1) true ((foldHalfRef arithC arithC.half m v).extract 0 (2^(m-1)))) q
+          = ((c (2 * q) : ℤ) : ℂ) + I * ((c (2 * q + 1) : ℤ) : ℂ) := by
+      intro q hq
+      rw [i1] at hq
+      rw [i2 q hq]
+      simp only [if_true]
+      rw [dft_congr _ _ _ (fun p => dft (zeta (m-1)) (2^(m-1))
+          (fun t => ((c (2 * t) : ℤ) : ℂ) + I * ((c (2 * t + 1) : ℤ) : ℂ)) p)
+          (fun p hp => by rw [x2 p hp, hG p hp]) q]
+      exact dft_inversion (m-1) _ q hq
+    rw [roundPairs_exact _ c hq, i1, hn2]
+    have := z ((List.range (2^m)).map c)
+    simp only [List.length_map, List.length_range] at this
+    exact this
+
+
+theorem fftIntoRef?_zero_exact (v : Array Int) (m : ℕ) (hv : v.size ≤ 2^m) :
+    fftIntoRef? arithC v (2^m) (Array.replicate (fftSize v.size (2^m)) arithC.zero)
+      = .ok (fftIntoRef arithC v m (Array.replicate (2^m) arithC.zero)) := by
+  have hpos := Nat.two_pow_pos m
+  have hfs : fftSize v.size (2^m) = 2^m := by unfold fftSize; rw [if_neg (by omega)]
+  unfold fftIntoRef?
+  simp only [hfs, isPow2_two_pow, Nat.log2_two_pow, Bool.not_true, Bool.false_eq_true, if_false]
+  rw [if_neg (by omega)]
+
+/-- **forward transforms, pointwise product, inverse transform = the integer convolution** (exact arithmetic),
+    as a list of `2^m` coefficients. -/
+theorem fftMulInvRef?_exact (a b : Array Int) (m : ℕ) (ha : a.size ≠ 0) (hb : b.size ≠ 0)
+    (hlen : a.size + b.size - 1 ≤ 2^m) :
+    fftMulInvRef? arithC a b (2^m) = .ok ((List.range (2^m)).map (convAt a b)) := by
+  unfold fftMulInvRef?
+  rw [fftIntoRef?_zero_exact a m (by omega), fftIntoRef?_zero_exact b m (by omega)]
+  simp only []
+  obtain ⟨a1, a2⟩ := fftIntoRef_zero_exact a m
+  obtain ⟨b1, b2⟩ := fftIntoRef_zero_exact b m
+  obtain ⟨p1, p2⟩ := pointwise_spec _ _ (2^m) a1 b1
+  unfold fftInvIntoRef?
+  rw [p1, isPow2_two_pow]
+  simp only [Bool.not_true, Bool.false_eq_true, if_false]
+  have := fftInvIntoRef_exact m (convAt a b) _ p1 (fun p hp => by
+    rw [p2 p hp, a2 p hp, b2 p hp]
+    exact dft_convAt (zeta m) (2^m) a b ha hb hlen p)
+  rw [p1] at this
+  rw [this]
+
+theorem range_map_convAt (a b : Array Int) (n : ℕ) (ha : a.size ≠ 0) (hb : b.size ≠ 0) (hlen : a.size + b.size - 1 ≤ n) :
+    (List.range n).map (convAt a b) = convSpec a b ++ List.replicate (n - (a.size + b.size - 1)) 0 := by
+  unfold convSpec
+  rw [if_neg (by omega)]
+  apply List.ext_getElem?
+  intro u
+  by_cases hu : u < a.size + b.size - 1
+  · rw [List.getElem?_append_left (by simpa using hu), List.getElem?_map, List.getElem?_map,
+      List.getElem?_range (by omega), List.getElem?_range hu]
+  · rw [List.getElem?_append_right (by simpa using hu)]
+    simp only [List.length_map, List.length_range, List.getElem?_map]
+    by_cases hun : u < n
+    · rw [List.getElem?_range hun, List.getElem?_replicate, if_pos (by omega)]
+      simp [convAt_of_ge a b u (by omega)]
+    · rw [List.getElem?_eq_none (by simpa using hun), List.getElem?_replicate, if_neg (by omega)]
+      rfl
+
 end ComplexInstance
 end Rlib.Fft
